@@ -1208,6 +1208,11 @@ func (e *env) call(x *CallE) any {
 	case "fresh":
 		return true // not decidable at run time: taken as true (only weakens the executable check)
 	case "sameslice":
+		if s1, ok := e.eval(x.Args[0]).(string); ok {
+			// strings: the same substring of the same text
+			s2, _ := e.eval(x.Args[1]).(string)
+			return len(s1) == len(s2) && (len(s1) == 0 || unsafe.StringData(s1) == unsafe.StringData(s2))
+		}
 		a, b := sliceOf(e.eval(x.Args[0]), x.Args[0]), sliceOf(e.eval(x.Args[1]), x.Args[1])
 		return a.Len() == b.Len() && (a.Cap() == 0 && b.Cap() == 0 || a.Pointer() == b.Pointer())
 	case "samearray":
